@@ -10,6 +10,8 @@
 //   Emplace                -> v.emplace<I>(args) | v.emplace<T>(args); the returned reference is checked
 //   Copy/Move how=assign   -> d = o / d = std::move(o);  how=construct -> destroy d, V(o) / V(std::move(o))
 //   Swap                   -> v1.swap(v2) | swap(v1, v2)
+//   AliasSelf              -> d = static_cast<const T&>(get<held>(d))   (the source is the held value itself)
+// (The shape with throwing alternatives, valueless variants and member aliasing is replayed by c20_varx.cc.)
 // Projection per variable: index(), holds_alternative<T> for every T, get<I> for every I (99 = throws
 // bad_variant_access; get<T>, get_if<I>, get_if<T> must agree), visit; for the pair: binary visit,
 // == != < > <= >=; live Tracked instances.
@@ -271,8 +273,9 @@ struct VWorld
     o["get"]   = json::array({get_one<0>(x), get_one<1>(x), get_one<2>(x)});
     auto p     = Fam::visit(Visitor{this}, x);
     o["visit"] = json::array({p.first, p.second});
+    o["vless"] = x.valueless_by_exception() ? "T" : "F";   // nothing can throw in this shape: never valueless
     if (x.valueless_by_exception())
-      o["idx"] = "valueless";
+      o["idx"] = -1;
     return o;
   }
   static const char *tf(bool b) { return b ? "T" : "F"; }
@@ -289,7 +292,8 @@ struct VWorld
     o["gt"]     = tf(a > b);
     o["le"]     = tf(a <= b);
     o["ge"]     = tf(a >= b);
-    o["live"]   = T2::live;
+    o["live"]   = json::array({0, 0, T2::live});   // live instances per alternative (only Tracked is counted)
+    o["threw"]  = "F";
     if (T2::bad)
       o["live"] = "a Tracked instance that was not alive was destroyed";
     return o;
@@ -429,6 +433,25 @@ void run_world(const Case &c)
       V &d           = *w->v[di];
       const V &alias = d;
       d              = alias;
+    }
+    else if (op == "AliasSelf")
+    {
+      // d = <const reference to the value d holds>: assignment to the same alternative from itself
+      V &d = *w->v[di];
+      switch (d.index())
+      {
+        case 0:
+          d = static_cast<const int &>(Fam::template get<0>(d));
+          break;
+        case 1:
+          d = static_cast<const std::string &>(Fam::template get<1>(d));
+          break;
+        case 2:
+          d = static_cast<const T2 &>(Fam::template get<2>(d));
+          break;
+        default:
+          note = "AliasSelf on a variant that holds nothing";
+      }
     }
     else if (op == "Swap")
     {
